@@ -40,6 +40,10 @@ pub const PROBES: &[&str] = &[
     "direct_mapping_call",
     "direct_mapping_in_gap",
     "query_inside_leap_second",
+    "sun_event_mapped",
+    "sun_event_on_jump_day",
+    "sun_event_after_the_jump_of_its_day",
+    "sun_state_checked",
     "next_change_none",
     "next_change_across_jump",
     "observer_zone_differs",
@@ -249,6 +253,25 @@ where
                             });
                             break;
                         }
+                    }
+                }
+            }
+            Step::Sun { day, event, lat, lon } => {
+                let r = simcore::catch(|| sun(&mut w, &ctx_tz, now.0, *day, *event, *lat, *lon));
+                match r {
+                    Ok(Ok(())) => {}
+                    Err(msg) if msg.starts_with("oracle:") => {
+                        out.harness_error = Some(msg);
+                        break;
+                    }
+                    Err(msg) => {
+                        out.fail = Some(Fail { class: "panic".into(), step: i, detail: format!("panic in the system under test (sun event, day {day}): {msg}") });
+                        break;
+                    }
+                    Ok(Err((class, detail))) => {
+                        w.fp.str(&class);
+                        out.fail = Some(Fail { class, step: i, detail });
+                        break;
                     }
                 }
             }
@@ -501,6 +524,76 @@ where
     }
     let _ = TimeDelta::zero();
     Ok(got_next(n_z))
+}
+
+/// I4: the wall-clock time of a sun event in the context zone is the zone's wall clock at the event's absolute
+/// instant. The instant comes from `Coordinates::event_time` (no zone involved), the offset from the oracle's jump
+/// table; the same question is first put to a UTC context (which must answer the instant's own time of day), so
+/// that whatever a context remembers is the other zone's answer. Then `sunrise-sunset` is evaluated through the
+/// zone-aware context two minutes before and after sunrise / sunset when no clock jump is within three hours.
+fn sun<Tz>(w: &mut Walk, ctx_tz: &Tz, now: i64, day: i32, event: u8, lat: i32, lon: i32) -> Result<(), (String, String)>
+where
+    Tz: TimeZone + Send + Sync + PartialEq + Debug,
+    Tz::Offset: Send + Sync,
+{
+    use opening_hours::localization::{Coordinates, Localize};
+    use opening_hours_syntax::rules::time::TimeEvent;
+    let spec = w.spec;
+    let Some(coords) = Coordinates::new(lat as f64 / 1e4, lon as f64 / 1e4) else { return Ok(()) };
+    let anchor = w.jump.map(|j| j.window().0).unwrap_or(now + spec.offset(now) as i64);
+    let Some(date) = ndt(anchor, 0).date().checked_add_signed(TimeDelta::days(day as i64)) else { return Ok(()) };
+    if !(1901..=9998).contains(&chrono::Datelike::year(&date)) {
+        return Ok(());
+    }
+    let events = [TimeEvent::Dawn, TimeEvent::Sunrise, TimeEvent::Sunset, TimeEvent::Dusk];
+    let ev = events[event as usize % 4];
+    let local_on = |date: NaiveDate, e: TimeEvent| {
+        let at = coords.event_time(date, e);
+        let u = at.timestamp();
+        (u, ndt(u + spec.offset(u) as i64, at.timestamp_subsec_nanos()))
+    };
+    let local_of = |e: TimeEvent| local_on(date, e);
+    let at = coords.event_time(date, ev);
+    let (u, want) = local_of(ev);
+    w.probes.hit("sun_event_mapped");
+    if w.jump.is_some_and(|j| ndt(j.window().0, 0).date() == want.date()) {
+        w.probes.hit("sun_event_on_jump_day");
+        if w.jump.is_some_and(|j| j.at <= u) {
+            w.probes.hit("sun_event_after_the_jump_of_its_day");
+        }
+    }
+    w.fp.i64(u);
+    let in_utc = TzLocation::new(Utc).with_coords(coords).event_time(date, ev);
+    if in_utc != at.naive_utc().time() {
+        return Err(("sun_event_mismatch".into(), format!("{ev:?} of {date} at {coords}: a UTC context reports {in_utc}, the event is at {at}")));
+    }
+    let got = TzLocation::new(ctx_tz.clone()).with_coords(coords).event_time(date, ev);
+    w.fp.u64(chrono::Timelike::num_seconds_from_midnight(&got) as u64);
+    if got != want.time() {
+        return Err((
+            "sun_event_mismatch".into(),
+            format!("{ev:?} of {date} at {coords} happens at utc {}, when the context zone's wall clock shows {want} (offset {} s); the context reports {got}", at.naive_utc(), spec.offset(u)),
+        ));
+    }
+    // end to end, for sunrise and sunset
+    let ((u_sr, l_sr), (u_ss, l_ss)) = (local_of(TimeEvent::Sunrise), local_of(TimeEvent::Sunset));
+    let quiet = |u: i64| spec.jumps_between(u - 3 * 3600, u + 3 * 3600).is_empty();
+    // (events are times of day: the span of the day before must not wrap past midnight into this one)
+    // (with a margin: the evaluation works on whole minutes, and a span of zero minutes is a whole day)
+    let eve_wraps = date.pred_opt().is_none_or(|p| local_on(p, TimeEvent::Sunset).1.time() - local_on(p, TimeEvent::Sunrise).1.time() < TimeDelta::minutes(5));
+    if l_sr.date() == date && l_ss.date() == date && (l_ss - l_sr) > TimeDelta::minutes(30) && quiet(u_sr) && quiet(u_ss) && u_ss - u_sr > 1800 && !eve_wraps {
+        let oh = OpeningHours::parse("sunrise-sunset").map_err(|e| ("harness".to_string(), format!("oracle: {e}")))?.with_context(Context::default().with_locale(TzLocation::new(ctx_tz.clone()).with_coords(coords)));
+        w.probes.hit("sun_state_checked");
+        for (u, want_open, what) in [(u_sr - 120, false, "2 min before sunrise"), (u_sr + 120, true, "2 min after sunrise"), (u_ss - 120, true, "2 min before sunset"), (u_ss + 120, false, "2 min after sunset")] {
+            let dt = ctx_tz.from_utc_datetime(&ndt(u, 0));
+            let st = oh.state(dt);
+            w.fp.u64(kind_code(st) as u64);
+            if (st == RuleKind::Open) != want_open {
+                return Err(("sun_state_mismatch".into(), format!("`sunrise-sunset` at {coords}, utc {} ({what} of {date}): state {st:?}", ndt(u, 0))));
+            }
+        }
+    }
+    Ok(())
 }
 
 fn got_next<Tz: TimeZone>(n: Option<DateTime<Tz>>) -> Option<i64> {
